@@ -334,6 +334,10 @@ def _decode_bytestrings(self):
         w = c[0].data['bound'].get('waterfall', NONE)
         ctx.formula('PROPAGATE', 'derived frames inherit the parent\'s Waterfall through check_waterfall()', fi, w,
                     T.mk_call(FR + 'check_waterfall', [sym('fr')]), node=c[0].node, construct='from_data(waterfall=...)')
+    # the helpers and the load path describe the file as it is NOW
+    from .common import memo_obligation
+    ctx.clause = 'D6'
+    memo_obligation(ctx, ctx.func('waterfall_utils.get_fs'), 'file helpers and loads re-read the file on every call')
 
 
 META = {
